@@ -8,7 +8,8 @@ from .. import gen, putcheck, run, sched, snap, spec, trashgen, trashworld, worl
 ID = 'C10'
 
 DAYS = [0, 1, 2, 7, 30, 365, 36500, 10 ** 7]
-DELTAS = [0, 1, -1, 60, -60, 86400, -86400, 2, -2, 3599, -3601]
+DELTAS = [0, 1, -1, 60, -60, 86400, -86400, 2, -2, 3599, -3601, 1800, -1800,
+          -3599, 3601, 7200, -7200]
 FMT = '%Y-%m-%dT%H:%M:%S'
 
 
@@ -136,9 +137,18 @@ def gen_case(rng, index, tier):
     if index % 150 == 7:
         return gen_race_case(rng, index, tier)
     now = rand_now(rng)
-    nowd = datetime.datetime.strptime(now, FMT)
     nodays = rng.random() < 0.12
     days = rng.choice(DAYS)
+    tz = trashgen.pick_tz(rng, p_dst=0.15, p_plain=0.05)
+    if tz in trashgen.DST_ZONES:
+        # the threshold (now - DAYS) falls on a daylight-saving edge of the
+        # zone, so that for DAYS >= 1 a switch lies between entry and now
+        days = rng.choice([0, 1, 2, 7, 30, 365])
+        edge = datetime.datetime.strptime(rng.choice(trashgen.DST_ZONES[tz]), FMT)
+        nd = edge + datetime.timedelta(days=days,
+                                       seconds=rng.choice([0, 0, 1800, -1800, 3600]))
+        now = nd.strftime(FMT)
+    nowd = datetime.datetime.strptime(now, FMT)
     n = rng.randint(1, 12)
     specs = []
     dates = []
@@ -186,7 +196,7 @@ def gen_case(rng, index, tier):
                                     '2020-01-01T00:00:00 '])
         specs.append((kind, text_date))
     L, trashes, entries = trashworld.make(
-        rng, index, n_entries=n, dates=['2000-01-01T00:00:00'])
+        rng, index, n_entries=n, dates=['2000-01-01T00:00:00'], tz=tz)
     # rewrite the info files according to specs
     for e, (kind, td) in zip(entries, specs):
         pv = trashgen.path_value(e['loc'], e['volume'], e['home'])
@@ -230,6 +240,7 @@ def gen_case(rng, index, tier):
     case['entries'] = entries
     case['trashes'] = [t['rel'] for t in trashes]
     case['extras'] = extras
+    case['tz'] = tz
     case['verbose'] = rng.random() < 0.2
     return case
 
@@ -273,6 +284,9 @@ def run_case(case):
             out['why'] = 'watchdog' if r.timeout else 'audit mismatch'
             return out
         out['features'].append('days:%s' % days)
+        out['features'].append('tz:%s' % (case.get('tz') or 'default'))
+        if case.get('tz') in trashgen.DST_ZONES:
+            obs['dst_zone_runs'] = obs.get('dst_zone_runs', 0) + 1
         overflow = False
         if days is not None:
             try:
